@@ -64,12 +64,17 @@ package badger
 // ---- bloom filter use on the read paths (C19) ----
 
 //@ func (*levelHandler).get
-//@   props C19
+//@   props C19 C01 C12
 //@   light
 //@   requires len(key) >= 8
 //@   assert[bloom-hash] before call DoesNotHave : arg1 == ret(Hash#1)
 //@   assert[hash-of-userkey] before call Hash#1 : arg0 == ret(ParseKey#1)
 //@   assert[userkey-of-key] before call ParseKey#1 : arg0 == key
+//@   assert[seek-key] before call Seek : arg1 == key
+//@   assert[same-user-key-only] before call ParseTs : ret(SameKey#1) && arg0 == ret(Key#2)
+//@   assert[same-key-test] before call SameKey : arg0 == key && arg1 == ret(Key#1)
+//@   assert[only-newer-replaces] before call ValueCopy : atloop(maxVs).Version < ret(ParseTs#1)
+//@   assert[tables-for-key] before call getTableForKey : arg1 == key
 
 //@ func (*IteratorOptions).pickTable
 //@   props C19
@@ -406,6 +411,33 @@ package badger
 //@   assert[lsm-item] before return : called(SafeCopy#1) ==> item.version == ret(get#1).Version && item.meta == ret(get#1).Meta && item.userMeta == ret(get#1).UserMeta && item.expiresAt == ret(get#1).ExpiresAt && item.vptr == ret(SafeCopy#1)
 //@   assert[lsm-value] before call SafeCopy : bytes(arg1) == bytes(ret(get#1).Value)
 //@   assigns inferred
+
+// ---- the point read path (C01): newest version at or below the seek key's version ----
+
+// DB.get: every memtable, newest first, is asked for the seek key; an exact version match is
+// returned at once; otherwise the candidate is replaced only by a strictly newer version, and
+// the levels are searched with that candidate for the same key from level 0.
+//@ func (*DB).get
+//@   props C01 C12
+//@   light
+//@   assert[memtable-asked-for-key] before call Get : arg0 == tables[i].sl && arg1 == key
+//@   assert[exact-version-returned] before return#2 : result0 == ret(Get#1) && ret(Get#1).Version == ret(ParseTs#1) && result1 == nil
+//@   assert[version-of-seek-key] before call ParseTs : arg0 == key
+//@   assert[only-newer-replaces] before assign maxVs : atloop(maxVs).Version < assigned.Version && assigned == ret(Get#1) && !(ret(Get#1).Meta == 0 && ret(Get#1).Value == nil)
+//@   assert[levels-with-candidate] before call get : arg0 == db.lc && arg1 == key && arg2 == maxVs && arg3 == 0
+
+// levelsController.get: levels are searched in increasing order from startLevel with the same
+// key; an exact version match is returned at once; the candidate is replaced only by a
+// strictly newer found version; the final candidate is the result.
+//@ func (*levelsController).get
+//@   props C01 C12
+//@   light
+//@   assert[level-asked-for-key] before call get : arg0 == h && arg1 == key && h.level >= startLevel
+//@   assert[version-of-seek-key] before call ParseTs : arg0 == key
+//@   assert[exact-version-returned] before return#3 : result0 == ret0(get#1) && ret0(get#1).Version == ret(ParseTs#1) && result1 == nil
+//@   assert[only-newer-replaces] before assign maxVs#2 : atloop(maxVs).Version < assigned.Version && assigned == ret0(get#1) && !(ret0(get#1).Value == nil && ret0(get#1).Meta == 0)
+//@   assert[candidate-returned] before return#4 : result0 == maxVs && result1 == nil
+//@   assert[error-stops] before return#2 : result1 != nil && ret1(get#1) != nil
 
 // ---- managed mode (C36) ----
 
